@@ -1,8 +1,10 @@
 """C03 — element lifetimes: history generators.
 
-Every history is emitted twice: as `hist` (model <-> code correspondence on element values and the
-per-location lifecycle projection of the real event log) and as `mon` (the property: verdict of the
-run-time monitor on the real log against `wf 1 alive 0` + self-operation identities)."""
+Every history is emitted three times: as `hist` (model <-> code correspondence on element values and the
+per-location lifecycle projection of the real event log), as `rawhist` (the same with the complete event
+list in program order, temporaries named canonically: also the ORDER of the events across locations must
+agree) and as `mon` (the property: verdict of the run-time monitor on the real log against `wf 1 alive 0`
++ self-operation identities).  Prefixes o / a: the variant-like and the pair/tuple families."""
 import itertools
 
 ID = "C03"
@@ -10,14 +12,20 @@ LEVEL = "proof"
 HARNESSES = [
     {"name": "main", "src": "harness.cpp", "flags": ["-O1", "-DTETL_ENABLE_CONTRACT_CHECKS=1"]},
 ]
-RULE = ("a case = a whole operation history on two objects of one family (static_vector / inplace_vector of a copy+move, move-only "
-        "or copy-only instrumented element) and capacity in {1,2,3,4,16}, run to the end including both destructors; "
-        "exhaustive part: every size state (n0 <= cap, n1 in {0,min(cap,2)}) at cap <= 3 x every single operation with every "
-        "position/count argument in [0, size+1] / [0, room+1]; pairs of lifetime-heavy operations at cap 3; random part: seeded "
-        "capacity-aware histories of length <= 40 biased to full/empty; ~10% end in a precondition violation; "
+RULE = ("a case = a whole operation history on two objects of one family, from their construction to both destructors, run three "
+        "times: lifecycle projection (hist), complete event order (rawhist), monitor verdict (mon). Families: static_vector / "
+        "inplace_vector / stack / static_set / flat_set (capacities 1,2,3,4,16), variant<T0,int,T2> / optional<T> / expected<T,E> / "
+        "inplace_function<int(int*),16>, pair<T0,T1> / tuple<T0,T1,T2>, each over a copy+move, move-only or copy-only instrumented "
+        "element. Exhaustive part: vectors - every size state (n0 <= cap, n1 in {0,min(cap,2)}) at cap <= 3 x every single "
+        "operation with every position/count argument in [0, size+1] / [0, room+1], pairs of lifetime-heavy operations at cap 3, "
+        "depth-3 inplace_vector histories (sampled in quick); sets - every single operation with keys below/equal/between/above "
+        "the present ones from every size state; variant-like - every single operation from every pair of index states (all "
+        "from/to combinations), sampled pairs; pair/tuple - every pair of operations. Random part: seeded capacity-aware histories "
+        "of length <= 40 biased to full/empty; ~10% of the vector histories end in a precondition violation; "
         "non-trivial = distinct history whose log contains at least one move/copy between two locations")
-TRUSTED_BASE = ["reference leg: the constant verdict `wf 1 alive 0 self 1...`; its domain (validity of the history) is decided by "
-                "replaying the history on libstdc++ std::vector<int> with the documented preconditions",
+TRUSTED_BASE = ["reference leg: the constant verdict `wf 1 alive 0 [st 1] self 1...`; its domain (validity of the history) is decided by "
+                "replaying the history on libstdc++ std::vector<int> (sets: sorted std::vector) with the documented preconditions; "
+                "variant-like: an empty function is not invoked",
                 "impl leg of `mon`: the C++ re-implementation of the lifetime automaton in props/C03/c03_track.hpp (cross-checked against the "
                 "extracted Coq automaton on every `hist` case), applied to the log written by the instrumented element types"]
 ASSUMPTIONS = ["element special members do not throw (exception paths of uninitialized_copy/move are outside the model)",
@@ -34,7 +42,7 @@ def L(xs):
 
 def both(family, cap, ops):
     body = f"{family} {cap} {len(ops)} " + " ".join(ops)
-    return ["hist " + body, "mon " + body]
+    return ["hist " + body, "rawhist " + body, "mon " + body]
 
 
 def pred(pid, e):
@@ -66,6 +74,10 @@ class Sim:
         if name == "swp":
             v[0], v[1] = v[1], v[0]
             return True
+        if name in ("ctn", "ctv"):
+            return 0 <= a[0] <= self.cap
+        if name == "ctr":
+            return a[0] <= self.cap
         tg = a[0]
         x = v[tg]
         sz = len(x)
@@ -130,6 +142,12 @@ class Sim:
                 bisect.insort(x, key)
         elif name in ("sek", "fek"):
             v[tg] = [e for e in x if e != a[1]]
+        elif name == "fex":
+            v[tg] = []
+        elif name == "frp":
+            xs = a[2:2 + a[1]]
+            if len(xs) > self.cap: return False
+            v[tg] = list(xs)
         elif name == "eif":
             v[tg] = [e for e in x if not pred(a[1], e)]
         elif name == "erv":
@@ -137,7 +155,7 @@ class Sim:
         return True
 
 
-COPY_OPS = ("pbc", "icr", "inn", "irg", "rsv", "asn", "asr", "cpa", "cpc", "sca", "tpc", "upc", "ivc", "sic", "sem", "sek", "fic", "fem", "fek", "iva", "isc")
+COPY_OPS = ("pbc", "icr", "inn", "irg", "rsv", "asn", "asr", "cpa", "cpc", "sca", "tpc", "upc", "ivc", "sic", "sem", "sek", "fic", "fem", "fek", "iva", "isc", "ctv", "ctr")
 
 
 def allowed(family, op):
@@ -163,6 +181,9 @@ def single_ops(t, sz, cap, vals):
     for n in range(0, cap + 2):
         ops += [f"rsz {t} {n}", f"rsv {t} {n} {x}", f"asn {t} {n} {x}", f"asr {t} {L((vals * 8)[:n])}"]
     ops += ["swp", f"cpa {t}", f"mva {t}", f"cpc {t}", f"mvc {t}", f"mrt {t}", f"sca {t}", f"sma {t}", f"ssw {t}"]
+    if sz == 0:
+        for n in range(0, cap + 2):
+            ops += [f"ctn {n}", f"ctv {n} {x}", f"ctr {L((vals * 8)[:n])}"]
     for pid in range(0, 5):
         ops.append(f"eif {t} {pid}")
     for v in vals[:2] + [-1]:
@@ -192,7 +213,7 @@ OWN_COPY_OPS = ("vac", "vca", "vsc", "vcc")
 
 def own_both(family, ops):
     body = f"{family} {len(ops)} " + " ".join(ops)
-    return ["ohist " + body, "omon " + body]
+    return ["ohist " + body, "orawhist " + body, "omon " + body]
 
 
 def own_allowed(family, op):
@@ -283,6 +304,8 @@ def adapter_ops(kind, t, sz, xs):
     for x in xs:
         ops += [f"{p}ir {t} {x}", f"{p}ic {t} {x}", f"{p}em {t} {x}", f"{p}ek {t} {x}"]
     ops.append(f"clr {t}")
+    if kind == "fs":
+        ops += [f"fex {t}", f"frp {t} {L(sorted(set(xs))[:3])}", f"frp {t} 0"]
     for pos in range(0, sz + 1):
         ops.append(f"era {t} {pos}")
         for l in range(pos, sz + 2):
@@ -335,6 +358,11 @@ def gen_adapters(tier, rng):
 AGG_COPY = ("aca", "asc", "acc")
 
 
+def agg_both(fam, ops):
+    body = f"{fam} {len(ops)} " + " ".join(ops)
+    return ["ahist " + body, "arawhist " + body, "amon " + body]
+
+
 def gen_agg(tier, rng):
     quick = tier == "quick"
     out = []
@@ -345,10 +373,10 @@ def gen_agg(tier, rng):
             al = [o for o in alpha if not (fl == "m" and o.split()[0] in AGG_COPY)]
             for h in itertools.product(al, repeat=2 if quick else 3):
                 ops = list(h)
-                out += [f"ahist {fam} {len(ops)} " + " ".join(ops), f"amon {fam} {len(ops)} " + " ".join(ops)]
+                out += agg_both(fam, ops)
             for _ in range(40 if quick else 2000):
                 ops = [rng.choice(al) for _k in range(rng.randint(3, 12))]
-                out += [f"ahist {fam} {len(ops)} " + " ".join(ops), f"amon {fam} {len(ops)} " + " ".join(ops)]
+                out += agg_both(fam, ops)
     return out
 
 
@@ -419,7 +447,8 @@ def gen(tier, rng):
                         f"err {t} {f} {l}", f"clr {t}", f"rsz {t} {rng.randint(0, cap)}", f"rsv {t} {rng.randint(0, cap)} {x}",
                         f"asn {t} {rng.randint(0, min(cap, 6))} {x}", f"asr {t} {L([rng.choice(VALS) for _ in range(rng.randint(0, min(cap, 6)))])}",
                         "swp", f"cpa {t}", f"mva {t}", f"cpc {t}", f"mvc {t}", f"mrt {t}", f"eif {t} {rng.randint(0, 4)}",
-                        f"erv {t} {rng.choice([x, -1])}", f"sca {t}", f"sma {t}", f"ssw {t}", f"emp {t} {pos} {x}", f"irv {t} {pos} {x}"]
+                        f"erv {t} {rng.choice([x, -1])}", f"sca {t}", f"sma {t}", f"ssw {t}", f"emp {t} {pos} {x}", f"irv {t} {pos} {x}",
+                        f"ctn {rng.randint(0, cap)}", f"ctv {rng.randint(0, cap)} {x}", f"ctr {L([rng.choice(VALS) for _ in range(rng.randint(0, min(cap, 5)))])}"]
             cand = [o for o in cand if allowed(fam, o)]
             rng.shuffle(cand)
             chosen = None
@@ -447,6 +476,6 @@ def gen(tier, rng):
 
 
 def nontrivial(case, impl):
-    if case.startswith("hist") or case.startswith("ohist") or case.startswith("ahist"):
+    if case.split(" ", 1)[0] in ("hist", "ohist", "ahist", "rawhist", "orawhist", "arawhist"):
         return ("Cm" in impl) or ("Cc" in impl) or ("Am" in impl) or ("Ac" in impl)
     return "self 1" in impl or "alive 0" in impl
